@@ -24,13 +24,10 @@ def size_limit(body):
 
 
 def kind_table(sites):
-    out = set()
-    for s in sites:
-        if s["kind"] != "can":
-            continue
-        eq, _ = author_eq_for(s)
-        out.add((s["right"], {True: "same", False: "different", None: "no-previous"}[eq]))
-    return out
+    """canonical (idiom independent) table of the right kinds chosen by the decisions of `sites`"""
+    if not sites:
+        return set()
+    return rights.canonical_kinds(sites[0]["body"], [s for s in sites if s["kind"] == "can"])
 
 
 def run(P, C, tier):
@@ -62,15 +59,13 @@ def run(P, C, tier):
     # R2
     ls = rights.can_sites(P, loc)
     ltab = kind_table([s for s in ls if not s["room_ineq"]])
-    rtab = set()
-    for r, eq, bi, paths in rights.right_var_defs(rem, "required_right"):
-        rtab.add((r, {True: "same", False: "different", None: "no-previous"}[eq]))
-    want = {("MutateSelf", "same"), ("MutateAll", "different"), ("MutateSelf", "no-previous")}
+    rs = rights.can_sites(P, rem)
+    rtab = kind_table(rs)
+    want = rights.WANT_KINDS
     C.ob("R2", "kind-table:local", ltab == want, loc.loc(), "local table %s" % sorted(ltab))
     C.ob("R2", "kind-table:remote", rtab == want, rem.loc(), "remote table %s" % sorted(rtab))
     C.ob("R2", "kind-table:agree", ltab == rtab, loc.loc(), "local and remote choose the right kind identically")
-    rs = rights.can_sites(P, rem)
-    C.ob("R2", "remote-uses-table", all(s["right"] in ("var:right", "phi") for s in rs) and len(rs) >= 2, rem.loc(), "every remote decision uses required_right")
+    C.ob("R2", "remote-uses-table", len(rs) >= 2 and all(kind_table([s]) == want for s in rs), rem.loc(), "every remote decision (entering and leaving room) chooses its right by the author comparison")
     # R3
     ldates = {s["date"] for s in ls}
     C.ob("R3", "local-date", ldates == {"‹InsertEntity›.node_to_mutate.date"}, loc.loc(), "local decisions at %s" % sorted(ldates))
@@ -123,7 +118,7 @@ def run(P, C, tier):
         C.saw(b)
         rt = kind_table(rights.can_sites(P, b))
         # the remote side additionally accepts a record whose target is unknown locally with the own-rows right
-        C.ob("R5", "deletion-kinds:" + fn.split("::")[-1], {x for x in rt if x[1] != "no-previous"} == dl, b.loc(), "local %s vs remote %s" % (sorted(dl), sorted(rt)))
+        C.ob("R5", "deletion-kinds:" + fn.split("::")[-1], rt == dl and dl == rights.WANT_KINDS, b.loc(), "local %s vs remote %s" % (sorted(dl), sorted(rt)))
     # R6 value shapes
     try:
         vj = P.body("data_model_parser::validate_json_for_entity")
